@@ -758,7 +758,7 @@ func generate(w *run.W) {
 	}
 
 	// (b) big documents and generated texts: random schedules with fault rates 0-40 %
-	nb := w.Pick(1500, 9000)
+	nb := w.Pick(6000, 18000)
 	for b := 0; b < nb; b++ {
 		if !w.Mine(b) {
 			continue
